@@ -10,6 +10,7 @@ import (
 //	Hist <T|G> nraw raw.. nrep rep.. exp nops op..   =>  answers (flattened, all integers)
 //
 // ops (view indices start at 0 = the base Number; every derive op appends a view; NEW appends an iterator):
+//
 //	WS i a | WE i a | FWS i a | WSG i a    derive            answer: tag fs pf nm exp zero   | -9 when not applicable
 //	AT i p                                 Number.At         answer: digit | -9
 //	NEW i kind [p]                         pull iterator     kinds F B I1 R1 IA1(p), P = v3 iter.Pull2 over All() (a push iterator
